@@ -16,8 +16,10 @@ import (
 //	w  a source write
 //	a  the answer to the oldest unanswered request at a sink
 //	r  the action held in a gated node returns
+//	d  a sink calls Receive once more although nothing is pending (a repeated answer): it must be
+//	   refused, reach no writer and be no answer to anything
 type op struct {
-	kind byte // 'w' | 'a' | 'r'
+	kind byte // 'w' | 'a' | 'r' | 'd'
 	sess int
 	node int // source, sink or gated node index
 	v    int
@@ -27,6 +29,8 @@ func (o op) String() string {
 	switch o.kind {
 	case 'w':
 		return fmt.Sprintf("w%d.%d=%d", o.sess, o.node, o.v)
+	case 'd':
+		return fmt.Sprintf("d%d.%d", o.sess, o.node)
 	case 'r':
 		return fmt.Sprintf("r%d.%d", o.sess, o.node)
 	}
@@ -58,6 +62,7 @@ type runner struct {
 	fails []string
 	// beforeWrite, when set, runs just before every source write (directed scenarios arm their hooks here)
 	beforeWrite func(sess int)
+	dups        int // refused repeated answers issued
 }
 
 func newRunner(f *flow, nsess int) *runner {
@@ -207,6 +212,16 @@ func (r *runner) exec(o op) {
 		ok := sr.s.readers[o.node].Receive(back)
 		obs = append(obs, fmt.Sprintf("recv=%v", ok))
 		sr.ip.writes[req.write].outstanding--
+	case 'd':
+		if len(sr.pending[o.node]) != 0 {
+			return // something is pending: a further Receive would be its answer
+		}
+		ok := sr.s.readers[o.node].Receive(packet.New(types.NewInt(-1)))
+		obs = append(obs, fmt.Sprintf("dup=%v", ok))
+		if ok {
+			r.failf("step %v: a Receive with no request pending was accepted", o)
+		}
+		r.dups++
 	}
 	r.collect(sr, &obs)
 	r.log = append(r.log, o.String()+" "+strings.Join(obs, " "))
